@@ -18,13 +18,15 @@ Local Notation traveller := (traveller N).
 Local Notation book := (book N).
 Local Notation promise := (promise N).
 
-(** [match] finds an entry of a consistent book (distances compare equal to themselves: not NaN) *)
-Lemma match_promise_finds mx (b : book) i :
+(** [match] finds the entry of a consistent book that has the same trip times and distance
+    (distances compare equal to themselves: not NaN) *)
+Lemma match_promise_finds mx (b : book) i (k : promise) :
   Inv mx b -> (i < MaxPromises)%nat -> p_ts (getp b i) <> 0 ->
-  keqb N (p_dist (getp b i)) (p_dist (getp b i)) = true ->
-  match_promise b (getp b i) = Some (p_clear (getp b i)).
+  p_ts k = p_ts (getp b i) -> p_te k = p_te (getp b i) ->
+  keqb N (p_dist (getp b i)) (p_dist k) = true ->
+  match_promise b k = Some (p_clear (getp b i)).
 Proof.
-  intros [Hl Hwf Hsep Hadj Hst] Hi Hne Hd. unfold match_promise.
+  intros [Hl Hwf Hsep Hadj Hst] Hi Hne Ets Ete Hd. unfold match_promise. rewrite Ets.
   set (f := fun i0 : nat => p_ts (getp b i0) <=? p_ts (getp b i)).
   assert (Hmono : monotone MaxPromises f).
   { intros a c Hac Hc Ha. unfold f in *. apply Z.leb_le in Ha. apply Z.leb_le.
@@ -36,30 +38,32 @@ Proof.
   set (s := search MaxPromises f) in *.
   assert (Es : s = i).
   { destruct (Nat.lt_trichotomy s i) as [Hlt|[E|Hgt]]; [|exact E|].
-    - (* f s = true, s < i: the entry at s starts no later than entry i, yet is newer *)
-      exfalso. assert (Hs : (s < MaxPromises)%nat) by lia. specialize (Shi s (le_n _) Hs). unfold f in Shi. apply Z.leb_le in Shi.
+    - exfalso. assert (Hs : (s < MaxPromises)%nat) by lia. specialize (Shi s (le_n _) Hs). unfold f in Shi. apply Z.leb_le in Shi.
       pose proof (Hsep s i Hlt Hi Hne). destruct (Hwf i Hi) as [_ W]. specialize (W Hne). lia.
     - exfalso. specialize (Slo i Hgt). unfold f in Slo. apply Z.leb_gt in Slo. lia. }
-  rewrite Es. destruct (Nat.ltb_spec i MaxPromises); [|lia]. rewrite !Z.eqb_refl, Hd. reflexivity.
+  rewrite Es. destruct (Nat.ltb_spec i MaxPromises); [|lia]. rewrite Z.eqb_refl, Ete, Z.eqb_refl, Hd. reflexivity.
 Qed.
 
-(** the next promised trip's check-ins: while the kept promise (entry j+1) is in the book the traveller is
-    cleared from the start of the next promised trip (entry j) on, whatever the balance *)
+(** the next promised trip's check-ins: while the entry of the kept promise (index j+1: same trip times
+    and distance; its clearance and stacking fields may have been rewritten by later proposals) is in
+    the book, the traveller is cleared from the start of the next promised trip (entry j) on, whatever
+    the balance *)
 Theorem next_promised_trip_not_grounded mx (t : traveller) j now :
   Inv mx (t_book t) -> (S j < MaxPromises)%nat ->
-  t_kept t = getp (t_book t) (S j) -> p_ts (t_kept t) <> 0 -> 0 < p_clear (t_kept t) ->
-  keqb N (p_dist (t_kept t)) (p_dist (t_kept t)) = true ->
+  p_ts (t_kept t) = p_ts (getp (t_book t) (S j)) -> p_te (t_kept t) = p_te (getp (t_book t) (S j)) ->
+  keqb N (p_dist (getp (t_book t) (S j))) (p_dist (t_kept t)) = true ->
+  p_ts (t_kept t) <> 0 -> p_clear (t_kept t) <> 0 -> 0 < p_clear (getp (t_book t) (S j)) ->
   p_ts (getp (t_book t) j) <= now ->
   ~ grounded t now.
 Proof.
-  intros HI Hj Hk Hne Hc Hd Hnow (_ & _ & Hg).
+  intros HI Hj Ets Ete Hd Hne Hc0 Hc Hnow (_ & _ & Hg).
   assert (Er : refreshed_clearance t = p_clear (getp (t_book t) (S j))).
-  { unfold refreshed_clearance. destruct (Z.eqb_spec (p_clear (t_kept t)) 0) as [E|_]; [lia|].
-    rewrite Hk. rewrite (match_promise_finds mx (t_book t) (S j) HI Hj); [reflexivity|rewrite <- Hk; exact Hne|rewrite <- Hk; exact Hd]. }
-  pose proof (inv_adj _ _ HI j Hj ltac:(rewrite <- Hk; exact Hne)) as Hadj.
-  rewrite Er in Hg. rewrite <- Hk in *.
-  destruct (Z.ltb_spec 0 (p_clear (t_kept t))); [|lia].
-  destruct (Z.leb_spec (p_clear (t_kept t)) now); [discriminate|lia].
+  { unfold refreshed_clearance. destruct (Z.eqb_spec (p_clear (t_kept t)) 0) as [E|_]; [contradiction|].
+    rewrite (match_promise_finds mx (t_book t) (S j) (t_kept t) HI Hj); [reflexivity|rewrite <- Ets; exact Hne|exact Ets|exact Ete|exact Hd]. }
+  pose proof (inv_adj _ _ HI j Hj ltac:(rewrite <- Ets; exact Hne)) as Hadj.
+  rewrite Er in Hg.
+  destruct (Z.ltb_spec 0 (p_clear (getp (t_book t) (S j)))); [|lia].
+  destruct (Z.leb_spec (p_clear (getp (t_book t) (S j))) now); [discriminate|lia].
 Qed.
 
 (** a pending kept promise (clearance date not yet passed) is never dropped from the book by a new proposal *)
